@@ -64,7 +64,12 @@ def main(argv: list[str]) -> int:
 def _replay(mod, ctx: F.Ctx, path: Path) -> int:
     doc = json.loads(path.read_text())
     H.freeze(H.DEFAULT_DAY)
-    out = mod.replay(doc["case"], ctx)
+    if doc.get("history"):
+        # the verdict needs the evaluations that preceded it in the same process
+        for c in doc["history"]:
+            out = mod.replay(c, ctx)
+    else:
+        out = mod.replay(doc["case"], ctx)
     print(json.dumps({"ok": out.ok, "sig": out.sig,
                       "detail": F.jsonable(out.detail)}, indent=1))
     if out.ok:
@@ -89,14 +94,59 @@ def _finish(mod, ctx: F.Ctx, rep: F.Report, meta: dict, wall: float) -> int:
     known = F.load_findings(prop)
     known_seen: list[str] = []
     new: list[dict] = []
-    # confirm every kept violation deterministically before believing it
+    # confirm every kept violation deterministically before believing it: first the case on
+    # its own; failing that, together with the evaluations that preceded it in its worker
+    # process (a verdict that depends on what the process did before is state the code under
+    # test carries between calls - reported with the history that is needed)
     H.freeze(H.DEFAULT_DAY)
+    hists = {id(v): v.pop("_hist", None) for v in rep.violations}
+    confirmed: set = set()
+    unreproduced: list = []
     for v in rep.violations:
-        again = mod.replay(F.jsonable(v["case"]), ctx)
-        if again.ok or again.sig != v["sig"]:
+        again = None if v.get("twice") else mod.replay(F.jsonable(v["case"]), ctx)
+        if again is not None and not again.ok and again.sig == v["sig"]:
+            confirmed.add(v["sig"])
+            continue
+        h = hists.get(id(v))
+        seq = None
+        if h is not None:
+            v["_hist"] = h
+            full = F.history_of(v)
+            tries = []
+            k = 2
+            while k < len(full):
+                tries.append(full[-k:])
+                k = k * 2 - 1 if k > 2 else 3
+            tries.append(full)
+            for t in tries:
+                r = F.run_history(v, t)
+                if r is not None and not r[0] and r[1] == v["sig"]:
+                    # must fail the same way a second time to be believed
+                    r2 = F.run_history(v, t)
+                    if r2 is not None and not r2[0] and r2[1] == v["sig"]:
+                        seq = t
+                        break
+            cases = h[0]
+            v.pop("_hist", None)
+            if seq is not None:
+                v["history"] = [F.jsonable(cases[j]) for j in seq] + ([F.jsonable(v["case"])] if v.get("twice") else [])
+                v["detail"] = dict(v["detail"] or {})
+                v["detail"]["needs_earlier_evaluations_in_the_same_process"] = len(v["history"]) - 1
+                confirmed.add(v["sig"])
+                continue
+        unreproduced.append(v)
+    if unreproduced:
+        bad = {v["sig"] for v in unreproduced} - confirmed
+        rep.violations = [v for v in rep.violations if v not in unreproduced]
+        if bad and not any(s not in known for s in confirmed):
             print(f"HARNESS-ERROR property={prop}: violation did not reproduce "
-                  f"on replay: {json.dumps(F.jsonable(v))[:600]}", file=sys.stderr)
+                  f"on replay (alone or with its worker's history): "
+                  f"{json.dumps(F.jsonable(unreproduced[0]))[:600]}", file=sys.stderr)
             return 2
+        for s in bad:
+            rep.counters["violation_classes_dropped_as_unreproducible"] = \
+                rep.counters.get("violation_classes_dropped_as_unreproducible", 0) + 1
+            rep.viol_sigs.pop(s, None)
     for sig, n in sorted(rep.viol_sigs.items()):
         if sig in known:
             known_seen.append(sig)
@@ -129,6 +179,7 @@ def _finish(mod, ctx: F.Ctx, rep: F.Report, meta: dict, wall: float) -> int:
             p.write_text(json.dumps(
                 {"property": prop, "tier": ctx.tier, "seed": ctx.seed,
                  "sig": v["sig"], "case": F.jsonable(v["case"]),
+                 **({"history": v["history"]} if v.get("history") else {}),
                  "detail": F.jsonable(v["detail"])}, indent=1) + "\n")
             new.append(v)
             if first_path is None:
@@ -150,7 +201,7 @@ def _finish(mod, ctx: F.Ctx, rep: F.Report, meta: dict, wall: float) -> int:
         for s, n in sorted(unlisted.items()):
             print(f"  unlisted violation class: {s} ({n} cases)")
         v = new[0]
-        print("  first: " + json.dumps(F.jsonable(v))[:1500])
+        print("  first: " + json.dumps(F.jsonable({k: x for k, x in v.items() if k != "history"}))[:1500])
         print(f"VIOLATION property={prop} replay={first_path}")
         return 1
     return 0
